@@ -86,33 +86,80 @@ Proof.
   all: try (apply Z.eqb_eq in Ec); unfold zlen in *; lia.
 Qed.
 
-(* ---------- records whose fields are all self-delimiting ---------- *)
+Fixpoint seq_z (n : nat) (s : Z) : list Z := match n with O => [] | S k => s :: seq_z k (s + 1) end.
+
+(* ---------- whole records: self-delimiting fields, then possibly one field that runs to the end ---------- *)
+Definition to_fld (f : tfield) : option SchemaM.fld :=
+  match to_sfld f with
+  | Some s => Some (SchemaM.FS s)
+  | None =>
+      match f with
+      | FHexRest | FB64Rest _ | FNsap | FB64RestE => Some (SchemaM.FRemaining 0)
+      | FTxtRest => Some (SchemaM.FRepeat true false [SchemaM.FCounted 1 0 255])
+      | _ => None
+      end
+  end.
+
+Definition to_val (f : tfield) (v : tval) : option SchemaM.val :=
+  match f, v with
+  | FTxtRest, VStrs l => Some (SchemaM.VL (map (fun s => [SchemaM.VB s]) l))
+  | FTxtRest, _ => None
+  | _, _ => match to_sval v with Some x => Some (SchemaM.VS x) | None => None end
+  end.
+
 Fixpoint to_fields (fs : list tfield) : option (list SchemaM.fld) :=
   match fs with
   | [] => Some []
-  | f :: r => match to_sfld f, to_fields r with
-              | Some s, Some t => Some (SchemaM.FS s :: t)
+  | f :: r => match to_fld f, to_fields r with
+              | Some s, Some t => Some (s :: t)
               | _, _ => None
               end
   end.
 
-Fixpoint to_vals (vs : list tval) : option (list SchemaM.val) :=
-  match vs with
-  | [] => Some []
-  | v :: r => match to_sval v, to_vals r with
-              | Some x, Some t => Some (SchemaM.VS x :: t)
-              | _, _ => None
-              end
+Fixpoint to_vals (fs : list tfield) (vs : list tval) : option (list SchemaM.val) :=
+  match fs, vs with
+  | [], [] => Some []
+  | f :: fr, v :: r => match to_val f v, to_vals fr r with
+                       | Some x, Some t => Some (x :: t)
+                       | _, _ => None
+                       end
+  | _, _ => None
   end.
+
+Lemma tie_fld c f st raw st' v g : to_fld f = Some g ->
+  parse_field c f st = Ok (raw, st') -> ctor_field f raw = Ok v ->
+  exists x, to_val f v = Some x /\ SchemaM.valid_f g x = true.
+Proof.
+  intros Hg H Hc. unfold to_fld in Hg. destruct (to_sfld f) as [s|] eqn:Es.
+  - inversion Hg; subst g. destruct (tie_field c f st raw st' v s Es H Hc) as (x & X1 & X2).
+    exists (SchemaM.VS x). split; [|exact X2]. unfold to_val. rewrite X1.
+    destruct f; try reflexivity. cbn [to_sfld] in Es. discriminate.
+  - destruct (parse_field_wire c f st raw st' v H Hc) as [He Hx].
+    destruct f; try discriminate; inversion Hg; subst g; clear Hg; cbn [parse_field] in H.
+    + (* FHexRest *) unfold rest_bytes in H. crack H. inversion H; subst. cbn [ctor_field] in Hc. inversion Hc; subst.
+      eexists. split; [reflexivity|]. cbn [SchemaM.valid_f]. apply Z.leb_le. unfold zlen. lia.
+    + (* FB64Rest *) unfold rest_bytes in H. crack H. inversion H; subst. cbn [ctor_field] in Hc. inversion Hc; subst.
+      eexists. split; [reflexivity|]. cbn [SchemaM.valid_f]. apply Z.leb_le. unfold zlen. lia.
+    + (* FTxtRest *) crack H. inversion H; subst. cbn [ctor_field] in Hc. inversion Hc; subst. cbn [wire_extra] in Hx.
+      destruct Hx as [Hne Hl]. eexists. split; [reflexivity|]. cbn [SchemaM.valid_f].
+      apply andb_true_iff. split; [apply andb_true_iff; split|reflexivity].
+      * apply forallb_forall. intros row Hr. apply in_map_iff in Hr as (s0 & <- & Hs0). rewrite Forall_forall in Hl.
+        specialize (Hl s0 Hs0). cbn [SchemaM.valid_row SchemaM.valid_s]. unfold SchemaM.len_in, zlen in *. lia.
+      * cbn [negb orb]. rewrite map_length. destruct l; [congruence|reflexivity].
+    + (* FNsap *) crack H. inversion H; subst. cbn [ctor_field] in Hc. inversion Hc; subst.
+      eexists. split; [reflexivity|]. cbn [SchemaM.valid_f]. apply Z.leb_le. unfold zlen. lia.
+    + (* FB64RestE *) crack H. inversion H; subst. cbn [ctor_field] in Hc. inversion Hc; subst.
+      eexists. split; [reflexivity|]. cbn [SchemaM.valid_f]. apply Z.leb_le. unfold zlen. lia.
+Qed.
 
 Lemma tie_fields c : forall fs wfs st raws st', to_fields fs = Some wfs ->
   parse_fields c fs st = Ok (raws, st') -> forall vs, ctor_fields fs raws = Ok vs ->
-  exists xs, to_vals vs = Some xs /\ SchemaM.valid_fields wfs xs = true.
+  exists xs, to_vals fs vs = Some xs /\ SchemaM.valid_fields wfs xs = true.
 Proof.
   induction fs as [|f fs IH]; intros wfs st raws st' Hw H vs Hc.
   - cbn [to_fields] in Hw. inversion Hw; subst. cbn [parse_fields] in H. inversion H; subst. cbn [ctor_fields] in Hc.
     inversion Hc; subst. exists []. split; reflexivity.
-  - cbn [to_fields] in Hw. destruct (to_sfld f) as [s|] eqn:Es; [|discriminate].
+  - cbn [to_fields] in Hw. destruct (to_fld f) as [s|] eqn:Es; [|discriminate].
     destruct (to_fields fs) as [t|] eqn:Et; [|discriminate]. inversion Hw; subst wfs.
     cbn [parse_fields] in H.
     destruct (parse_field c f st) as [[r s1]| |] eqn:E1; cbn [bind fst snd] in H; try discriminate.
@@ -120,16 +167,16 @@ Proof.
     inversion H; subst. cbn [ctor_fields] in Hc.
     destruct (ctor_field f r) as [v| |] eqn:E3; cbn [bind] in Hc; try discriminate.
     destruct (ctor_fields fs rs) as [vr| |] eqn:E4; cbn [bind] in Hc; try discriminate. inversion Hc; subst.
-    destruct (tie_field c f st r s1 v s Es E1 E3) as (x & X1 & X2).
+    destruct (tie_fld c f st r s1 v s Es E1 E3) as (x & X1 & X2).
     destruct (IH t s1 rs st' eq_refl E2 vr E4) as (xs & Y1 & Y2).
-    exists (SchemaM.VS x :: xs). cbn [to_vals]. rewrite X1, Y1. split; [reflexivity|].
-    cbn [SchemaM.valid_fields SchemaM.valid_f]. rewrite X2, Y2. reflexivity.
+    exists (x :: xs). cbn [to_vals]. rewrite X1, Y1. split; [reflexivity|].
+    cbn [SchemaM.valid_fields]. rewrite X2, Y2. reflexivity.
 Qed.
 
 (* accepted by from_text => the C02 encoder passes its constructor-validation step and proceeds to the octets *)
 Theorem text_then_schema_encoder c fs chk st vs st' wfs origin :
   to_fields fs = Some wfs -> class_from_text c fs chk st = Ok (vs, st') ->
-  exists xs, to_vals vs = Some xs /\
+  exists xs, to_vals fs vs = Some xs /\
     SchemaM.encode_rdata origin wfs SchemaM.CkNone xs = SchemaM.enc_fields origin wfs xs.
 Proof.
   intros Hw H. unfold class_from_text in H.
@@ -143,4 +190,4 @@ Qed.
 (* the types of the table this covers *)
 Definition tie_types : list Z :=
   filter (fun t => match schema_of t with Some fs => match to_fields fs with Some _ => true | None => false end | None => false end)
-         [2; 5; 6; 12; 13; 15; 17; 18; 19; 21; 23; 26; 27; 33; 35; 36; 39; 107; 196609].
+         (seq_z 300 0 ++ [32769; 196609]).
